@@ -172,6 +172,8 @@ def sh(cmd, timeout=600, cwd=None, env=None):
 def coq_build(timeout=3000) -> float:
     """Full .vo build of the hand-written development (incremental)."""
     lock = COQ / ".build.lock"
+    if os.environ.get("VERIF_SKIP_BUILD") == "1":   # development only: .vo files compiled by hand
+        return 0.0
     if not (COQ / "Makefile").exists():
         rc, out, _ = sh(["flock", str(lock), "coq_makefile", "-f", "_CoqProject", "-o", "Makefile"],
                         cwd=COQ)
